@@ -57,6 +57,22 @@ func (g *gctx) block(b *cm.Block, parent *cm.Block) {
 	if num := b.ListItemNumber(g.src); k == cm.ListItemKind && b.IsOrderedList() {
 		if num < 0 || num > 999999999 {
 			g.add("ordered item number %d", num)
+		} else if b.ChildCount() > 0 && b.Child(0).Block() != nil && b.Child(0).Block().Kind() == cm.ListMarkerKind {
+			// the accessor agrees with the marker: the number is the decimal
+			// value of the marker's digits, and a bullet marker has none
+			sp := b.Child(0).Span()
+			if sp.IsValid() && sp.End <= len(g.src) {
+				want, digits := 0, 0
+				for _, c := range g.src[sp.Start:sp.End] {
+					if c >= '0' && c <= '9' {
+						want = want*10 + int(c-'0')
+						digits++
+					}
+				}
+				if digits > 0 && digits <= 9 && want != num {
+					g.add("ordered item number %d but its marker is %q", num, g.src[sp.Start:sp.End])
+				}
+			}
 		}
 	} else if num != -1 {
 		g.add("%v ListItemNumber %d", k, num)
